@@ -116,3 +116,40 @@ def accepting_set(cx, vartext, domain, sinks, start=None):
         if any(s.id in reach for s in sinks):
             acc.append(v)
     return acc
+
+
+class StrDomain:
+    """finite set of string values plus a fresh 'other' value for a scheme-like variable"""
+    OTHER = '<other>'
+
+    def __init__(self, values):
+        self.values = list(values) + [self.OTHER]
+
+    def const(self, e):
+        if isinstance(e, ast.Constant) and isinstance(e.value, str):
+            return e.value
+        return None
+
+    def eval(self, test, vartext, v):
+        if isinstance(test, ast.Compare) and len(test.ops) == 1:
+            l, r, op = test.left, test.comparators[0], test.ops[0]
+            if ast.unparse(r) == vartext and isinstance(op, (ast.Eq, ast.NotEq)):
+                l, r = r, l
+            if ast.unparse(l) != vartext:
+                return 'unknown' if mentions(test, vartext) else 'unrelated'
+            if isinstance(op, (ast.Eq, ast.NotEq)):
+                c = self.const(r)
+                if c is None:
+                    return 'unknown'
+                eq = (c == v)
+                return eq if isinstance(op, ast.Eq) else (not eq)
+            if isinstance(op, (ast.In, ast.NotIn)) and isinstance(r, (ast.Tuple, ast.List, ast.Set)):
+                cs = [self.const(x) for x in r.elts]
+                if any(c is None for c in cs):
+                    return 'unknown'
+                return (v in cs) if isinstance(op, ast.In) else (v not in cs)
+            return 'unknown'
+        if isinstance(test, ast.Call) and isinstance(test.func, ast.Attribute) and test.func.attr == 'startswith' \
+                and ast.unparse(test.func.value) == vartext and test.args and self.const(test.args[0]) is not None:
+            return v != self.OTHER and v.startswith(self.const(test.args[0]))
+        return 'unknown' if mentions(test, vartext) else 'unrelated'
